@@ -639,9 +639,58 @@ def gen_alias_nested_cases(rng, n):
     return cases
 
 
+def quotient_graph(nodes, edges, limit):
+    """The documented meaning of level_limit on a module list / import list: names truncated to limit+1 components."""
+    tr = lambda x: ".".join(x.split(".")[:limit + 1])
+    qn = sorted({tr(x) for x in nodes})
+    qe = sorted({(tr(a), tr(b)) for a, b in edges if tr(a) != tr(b)})
+    return qn, qe
+
+
+def refine_for_limit(rng, nodes, edges):
+    """A deeper graph whose level-limited view is the given one: the deepest modules get sub modules, some import ends move
+    down into them, and level_limit = depth of the given graph.  -> (nodes2, edges2, limit)"""
+    depth0 = max(x.count(".") for x in nodes)
+    if depth0 < 1:
+        return list(nodes), list(edges), None
+    deepest = [x for x in nodes if x.count(".") == depth0]
+    extra = {}
+    for x in deepest:
+        extra[x] = [x + "." + c for c in rng.sample(["x0", "x1", "sub.y"], rng.randint(1, 2))]
+    nodes2 = sorted(set(nodes) | {y for ys in extra.values() for y in ys} | {y.rsplit(".", 1)[0] for ys in extra.values() for y in ys})
+    edges2 = []
+    for a, b in edges:
+        a2 = rng.choice(extra[a]) if a in extra and rng.random() < 0.6 else a
+        b2 = rng.choice(extra[b]) if b in extra and rng.random() < 0.6 else b
+        edges2.append((a2, b2))
+    # imports inside one refined module vanish in the limited view (self edges): add a few
+    for x in deepest:
+        if len(extra[x]) > 1 and rng.random() < 0.5:
+            edges2.append((extra[x][0], extra[x][1]))
+    return nodes2, sorted(set(edges2)), depth0
+
+
+def gen_limited_cases(rng, n, strict):
+    """Rules evaluated on a LEVEL-LIMITED architecture (two features combined): filters name modules that exist in the
+    flattened graph; the oracle works on the quotient graph."""
+    cases = []
+    while len(cases) < n:
+        nodes = rand_tree(rng, rng.choice((COLLISION_FREE, ADVERSARIAL, LARGE_POOL)), max_nodes=rng.choice([10, 16, 24]), max_depth=6)
+        edges = rand_edges(rng, nodes, 14)
+        limit = rng.randint(1, 3)
+        qn, qe = quotient_graph(nodes, edges, limit)
+        fp = pick_filters(rng, qn, strict, kmax=3)
+        if fp is None:
+            continue
+        cases.append(dict(nodes=nodes, edges=edges, limit=limit, obs=(qn, qe), specs=all_shapes(*fp), mode="direct", tag=("rand", strict, "limited")))
+    return cases
+
+
 def gen_random_cases(rng, n, strict, mode="direct", pools=(COLLISION_FREE, ADVERSARIAL)):
     if mode == "alias_nested":
         return gen_alias_nested_cases(rng, n)
+    if mode == "limited":
+        return gen_limited_cases(rng, n, strict)
     cases = []
     large = mode == "large"       # beyond the sizes of hand-written examples: up to 45 modules, 7 levels, 6 subjects x 6 objects, 30 imports
     if large:
@@ -684,7 +733,7 @@ def check_rule_cases(cases, use_oracle=True, lines=False):
             strict = spec.get("subj") is not None and spec["subj"][0] in ("named", "sub") and \
                 (spec.get("anything") or (spec.get("obj") is not None and spec["obj"][0] in ("named", "sub"))) and \
                 len(spec.get("verbs", [])) == 1 and is_strict(spec) and \
-                all(n in c["nodes"] for n in spec["subj"][1] + (spec["obj"][1] if spec.get("obj") else []))
+                all(n in c.get("obs", (c["nodes"],))[0] for n in spec["subj"][1] + (spec["obj"][1] if spec.get("obj") else []))
             case = dict(nodes=c["nodes"], edges=c["edges"], observed=c.get("obs"), spec=_jsonable_spec(spec), mode=c.get("mode", "direct"),
                         impl=[io[0], io[1][:400]], model=[mo[0], _jsonable_lines(mo[1])])
             bad_model = not same_verdict(io, mo) or (lines and not same_lines(io, mo))
